@@ -14,7 +14,7 @@ def run(ctx):
     # per-node trace validation: every evaluated node of random programs judged locally (evaluation order, selected branch only,
     # operator cells, member access, calls) given its children's observed results
     nd = ctx.record("nodes-random", "nodes", ["-n", 6000 if ctx.thorough else 600, "-seed", ctx.seed * 100 + 57])
-    ctx.validate("nodes-random-validate", "trace/Trace_Nodes.tla", "trace/Trace_Nodes.cfg", nd, "nodes", shards=1)
+    ctx.validate("nodes-random-validate", "trace/Trace_Nodes.tla", "trace/Trace_Nodes.cfg", nd, "nodes", shards=14 if ctx.thorough else 2, cut="start")
     # "a later evaluation by the same runner sees the binding": every history of one runner (with and without a data map,
     # bindings made before a failure, arrays rebound to arrays) over the runner model, replayed step by step
     r = ctx.tlc("runner-1x", "mc/MC_Runner.tla", "mc/MC_Runner.cfg", {"N": 5 if ctx.thorough else 4, "Runners": '{"r1"}'}, min_states=60000, timeout=3400, heap="14g")
